@@ -179,6 +179,14 @@ def main():
     if res.ok and (not res.theorems or len(res.discharged) != len(res.theorems)):
         res.ok = False
         res.failed_target = "no-theorems" if not res.theorems else "undischarged-theorems"
+    # thorough tier: re-check the compiled theorems and everything they depend on with the independent checker
+    coqchk = None
+    if tier == "thorough" and res.ok and os.environ.get("VERIF_NO_COQCHK") != "1":
+        coqchk = C.run_coqchk(pid)
+        if not coqchk["ok"]:
+            res.ok = False
+            res.failed_target = "coqchk"
+            res.log += "\n[coqchk] " + coqchk["tail"]
     findings = C.load_known_findings(pid)
     fixed_w = [e["witness"] for e in findings if e.get("kind") == "fixed" and "witness" in e]
     kf = [e for e in findings if e.get("kind") == "finding"]
@@ -316,6 +324,7 @@ def main():
             "distribution": plugin.summarize(cases, obss) if hasattr(plugin, "summarize") and obss else {},
             "exhaustive": bool(getattr(plugin, "last_exhaustive", False)),
             "build_ok": res.ok, "failed": res.failed_target, "search": search_note,
+            "coqchk": coqchk if coqchk is not None else "not run in the quick tier (thorough tier runs coqchk -o on the Properties module)",
         },
         "assumptions": getattr(plugin, "ASSUMPTIONS", []),
         "wall_s": round(time.time() - t0, 2),
@@ -332,5 +341,33 @@ def main():
     return rc
 
 
+def _guarded_main():
+    """A crash of the harness itself (typically: the code under test changed an interface the fakes or oracles
+    rely on) must not read as a pass, nor exit non-zero without a VIOLATION line."""
+    try:
+        return main()
+    except SystemExit:
+        raise
+    except BaseException:  # noqa: BLE001
+        import traceback
+        tb = traceback.format_exc()
+        pid = next((a for a in sys.argv[1:] if a.startswith("C") and a[1:].isdigit()), "C00")
+        try:
+            rp = C.write_replay(pid, {"property": pid, "kind": "harness-error",
+                                      "note": "the correspondence harness could not run against this tree; "
+                                              "the property is no longer shown to hold", "traceback": tb})
+        except Exception:  # noqa: BLE001
+            rp = "-"
+        sys.stderr.write(tb)
+        try:
+            C.write_evidence(pid, {"property_id": pid, "tier": os.environ.get("VERIF_TIER", "quick"), "seed": 0,
+                                   "level": "other", "coverage": {"harness_error": tb[-2000:]}, "assumptions": [],
+                                   "wall_s": 0, "violations": 1})
+        except Exception:  # noqa: BLE001
+            pass
+        print(f"VIOLATION property={pid} replay={rp} no-failing-input-found")
+        return 1
+
+
 if __name__ == "__main__":
-    sys.exit(main())
+    sys.exit(_guarded_main())
